@@ -220,6 +220,48 @@ package mail
 //@ func mail.Client.sendSingleMsg (client, message) (err)
 //@   requires[C20:wf] c != nil && client != nil && message != nil
 //@   ensures[C20:affected] err != nil ==> istype(err, "*mail.SendError") && as(err, "*mail.SendError").affectedMsg == message
+// The verdict: world.verdict (ghost) is the error of the step the message failed at - MAIL, the LAST refused
+// RCPT, DATA, the content transfer, end-of-data or the final RSET - never the error of a clean-up RSET that
+// follows a refusal; world.step is the reason that names that step; world.nrej counts refused recipients.
+//@ ghost field verdict ref
+//@ ghost field step int
+//@ ghost field nrej int
+//@ ghost field escsup bool
+//@ at mail.Client.sendSingleMsg smtp.Client.Extension#1 after ghost[C20:g] world.escsup = r0
+//@ ufn tempof(e ref) bool
+//@ ufn codeof(e ref) int
+//@ ufn escof(e ref, sup bool) string
+// tempof / codeof / escof name what the three classification functions return for an error: they are pure
+// functions of the error (its text) - assumed here (free ensures); what they compute is pinned down for reply
+// errors by the verified clauses above
+//@ func mail.isTempError (err) (result)
+//@   free_ensures[C20:fn] result == tempof(err)
+//@ func mail.errorCode (err) (result)
+//@   free_ensures[C20:fn] result == codeof(err)
+//@ func mail.enhancedStatusCode (err, supported) (result)
+//@   free_ensures[C20:fn] result == escof(err, supported)
+//@ at mail.Client.sendSingleMsg entry ghost[C20:g] world.nrej = 0
+//@ at mail.Client.sendSingleMsg smtp.Client.Mail#1 after ghost[C20:g] world.verdict = r0
+//@ at mail.Client.sendSingleMsg smtp.Client.Mail#1 after ghost[C20:g] world.step = 2
+//@ at mail.Client.sendSingleMsg smtp.Client.Rcpt#1 after ghost[C20:g] world.verdict = (r0 != nil ? r0 : world.verdict)
+//@ at mail.Client.sendSingleMsg smtp.Client.Rcpt#1 after ghost[C20:g] world.step = (r0 != nil ? 3 : world.step)
+//@ at mail.Client.sendSingleMsg smtp.Client.Rcpt#1 after ghost[C20:g] world.nrej = world.nrej + (r0 != nil ? 1 : 0)
+//@ at mail.Client.sendSingleMsg smtp.Client.Data#1 after ghost[C20:g] world.verdict = r1
+//@ at mail.Client.sendSingleMsg smtp.Client.Data#1 after ghost[C20:g] world.step = 4
+//@ at mail.Client.sendSingleMsg mail.Msg.WriteTo#1 after ghost[C20:g] world.verdict = r1
+//@ at mail.Client.sendSingleMsg mail.Msg.WriteTo#1 after ghost[C20:g] world.step = 7
+//@ at mail.Client.sendSingleMsg io.Closer.Close#1 after ghost[C20:g] world.verdict = r0
+//@ at mail.Client.sendSingleMsg io.Closer.Close#1 after ghost[C20:g] world.step = 5
+//@ at mail.Client.sendSingleMsg mail.Client.ResetWithSMTPClient#1 after ghost[C20:g] world.verdict = r0
+//@ at mail.Client.sendSingleMsg mail.Client.ResetWithSMTPClient#1 after ghost[C20:g] world.step = 6
+//@ pred sentenv(e error) = as(e, "*mail.SendError").Reason >= 2 && as(e, "*mail.SendError").Reason <= 7
+//@ func mail.Client.sendSingleMsg (client, message) (err)
+//@   ensures[C20:names-the-step] (err != nil && sentenv(err)) ==> as(err, "*mail.SendError").Reason == world.step
+//@   ensures[C20:code-of-the-verdict] (err != nil && sentenv(err)) ==> as(err, "*mail.SendError").errcode == codeof(world.verdict)
+//@   ensures[C20:temp-of-the-verdict] (err != nil && sentenv(err)) ==> as(err, "*mail.SendError").isTemp == tempof(world.verdict)
+//@   ensures[C20:esc-of-the-verdict] (err != nil && sentenv(err)) ==> as(err, "*mail.SendError").enhancedStatusCode == escof(world.verdict, world.escsup)
+//@   ensures[C20:one-entry-per-refused-recipient] (err != nil && as(err, "*mail.SendError").Reason == 3) ==> len(as(err, "*mail.SendError").rcpt) == world.nrej && world.nrej >= 1
+//@   loop 1 invariant[C20:verdict] rcptSendErr != nil && len(rcptSendErr.rcpt) == world.nrej && world.nrej >= 0 && (hasError <==> world.nrej >= 1) && (hasError ==> (rcptSendErr.Reason == 3 && world.step == 3 && rcptSendErr.errcode == codeof(world.verdict) && rcptSendErr.isTemp == tempof(world.verdict) && rcptSendErr.enhancedStatusCode == escof(world.verdict, escSupport)))
 //@ func mail.Client.SendWithSMTPClient
 //@   requires[C20:wf] c != nil
 //@ at mail.Client.SendWithSMTPClient mail.Client.sendSingleMsg#1 after assert[C20:no-stale-error] result == nil ==> message.sendError == nil
